@@ -16,7 +16,10 @@ func init() {
 			"pool.PeerPool.Allocate", "pool.PeerPool.Release", "pool.PeerPool.getPeerAddr",
 		},
 		// the HTTP layer between peers is a trusted frame for the verifier: bounded stand-in on the real code
-		BoundedChecks: []BoundedCheck{httpForwardingBounded},
+		BoundedChecks: []BoundedCheck{httpForwardingBounded,
+			{ID: "pool.three_nodes", Pkg: "github.com/codelaboratoryltd/bng/pkg/pool", File: "pool_three_nodes.go",
+				Bound: "three nodes over loopback HTTP; the 4 health vectors with at most one node regarded as unhealthy by the others; every entry node; 24 subscribers each; plus 8 subscribers whose owner is unreachable but still regarded as healthy",
+				Claim: "every answer names the first node of the ranking that is regarded as healthy, the subscriber is held by exactly that node's pool after entering at every node; with the owner unreachable the entry node reports the error and holds nothing"}},
 		Undecided: []string{
 			"hashString / hashCombine are trusted to be deterministic functions (ghost hstr, score); nothing about FNV-1a or the Wang mixer is decided",
 			"ties: the contracts REQUIRE that distinct peer names have distinct scores and that scores are non-zero. The mixer is a bijection of keyHash^FNV1a(name), so scores tie exactly when two peer names collide under 64-bit FNV-1a; then rendezvousHash (first maximum, GetOwner/IsLocalOwner) and rendezvousRanked (sort.Slice, unstable; getHealthyOwner/Allocate/Release) name different owners (spec/replays/inspection_C17_score_tie_owner_disagreement.go, real colliding names). With all scores 0 rendezvousHash returns \"\"",
